@@ -44,6 +44,9 @@ def packedHist (t : Array String) : String :=
 def packedOp (t : Array String) : Option String :=
   match argS t 0 with
   | "packed.hist" => some (packedHist t)
+  -- far elements on a sparse mapping: checked on the implementation against an independent reference reader;
+  -- the model's answer is the specification's ("every write lands on its own bits"), i.e. no finding
+  | "packed.far" => some (if (kw t "v").getD "d" == "p" then "bad-inst" else "far=done")
   | _ => none
 
 end Driver
